@@ -775,7 +775,37 @@ pub fn ladder(rng: &mut Rng, cx: Cx) -> Frag {
     };
     // d+u versions: u:X = or_i(X,0), W versions through a:
     let du = |x: Frag| Frag::OrI(bx(x), bx(Frag::False));
-    let choice = match rng.below(8) {
+    // two locks of the same kind and unit with different values, side by side
+    let lock_pair = |rng: &mut Rng| -> (Frag, Frag) {
+        let vals: [(u32, u32); 4] = [(5, 10), (1, 144), ((1 << 22) | 2, (1 << 22) | 9), (3, 65_535)];
+        let (a, b) = *rng.pick(&vals);
+        let (a, b) = if rng.coin() { (a, b) } else { (b, a) };
+        match rng.below(3) {
+            0 => (Frag::Older(a), Frag::Older(b)),
+            1 => (Frag::After(a & 0xffff), Frag::After(b & 0xffff)),
+            _ => (Frag::After(500_000_000 + (a & 0xffff)), Frag::After(500_000_000 + (b & 0xffff))),
+        }
+    };
+    let lw = |x: Frag| Frag::Swap(Box::new(Frag::OrI(Box::new(Frag::False), Box::new(Frag::ZeroNotEqual(Box::new(x))))));
+    let choice = match rng.below(11) {
+        8 => {
+            // thresh over keys and two different locks (k ranges over everything sensible)
+            let (l1, l2) = lock_pair(rng);
+            let xs = vec![pk(1), Frag::Swap(bx(pk(2))), lw(l1), lw(l2)];
+            Frag::Thresh(1 + rng.below(4), xs)
+        }
+        9 => {
+            let (l1, l2) = lock_pair(rng);
+            match rng.below(3) {
+                0 => Frag::OrI(bx(Frag::AndV(bx(Frag::Verify(bx(pk(1)))), bx(l1))), bx(Frag::AndV(bx(Frag::Verify(bx(pk(2)))), bx(l2)))),
+                1 => Frag::AndV(bx(Frag::Verify(bx(l1))), bx(Frag::AndV(bx(Frag::Verify(bx(pk(1)))), bx(l2)))),
+                _ => Frag::AndOr(bx(pk(1)), bx(l1), bx(Frag::AndV(bx(Frag::Verify(bx(pk(2)))), bx(l2)))),
+            }
+        }
+        10 => {
+            let (l1, l2) = lock_pair(rng);
+            Frag::OrD(bx(pk(1)), bx(Frag::OrI(bx(Frag::AndV(bx(Frag::Verify(bx(pk(2)))), bx(l1))), bx(Frag::AndV(bx(Frag::Verify(bx(pk(3)))), bx(l2))))))
+        }
         0 => Frag::OrD(bx(pk(1)), bx(sigless(rng))),
         1 => Frag::OrI(bx(sigarm(rng)), bx(sigless(rng))),
         2 => Frag::OrI(bx(sigless(rng)), bx(sigarm(rng))),
